@@ -133,8 +133,15 @@ func (m meas) set() attribute.Set {
 	if m.ovf {
 		return attribute.NewSet(attribute.Bool("otel.metric.overflow", true))
 	}
+	if wideAttrs {
+		// two more attributes that never vary: filters then have something to drop behind what they keep
+		return attribute.NewSet(attribute.Int("a", m.a), attribute.Int("b", m.b), attribute.String("c", "x"), attribute.String("d", "y"))
+	}
 	return attribute.NewSet(attribute.Int("a", m.a), attribute.Int("b", m.b))
 }
+
+// wideAttrs is set per history (histories run one at a time in a process).
+var wideAttrs bool
 
 func filtered(m meas, f string) string {
 	if m.ovf {
@@ -144,18 +151,24 @@ func filtered(m meas, f string) string {
 		}
 		return overflowKey
 	}
+	tail := ""
+	if wideAttrs {
+		tail = ",c=x,d=y"
+	}
 	switch f {
 	case "allow-a":
 		return fmt.Sprintf("a=%d", m.a)
+	case "allow-ab":
+		return fmt.Sprintf("a=%d,b=%d", m.a, m.b)
 	case "deny-a":
-		return fmt.Sprintf("b=%d", m.b)
+		return fmt.Sprintf("b=%d", m.b) + tail
 	}
-	return fmt.Sprintf("a=%d,b=%d", m.a, m.b)
+	return fmt.Sprintf("a=%d,b=%d", m.a, m.b) + tail
 }
 
-var defaultAgg = map[string]string{"ci": "sum", "ci2": "sum", "cf": "sum", "ui": "sum", "hf": "hist", "gi": "gauge", "oci": "sum", "ogi": "gauge"}
-var isAsync = map[string]bool{"oci": true, "ogi": true}
-var instruments = []string{"ci", "ci2", "cf", "ui", "hf", "gi", "oci", "ogi"}
+var defaultAgg = map[string]string{"ci": "sum", "ci2": "sum", "cf": "sum", "ui": "sum", "hf": "hist", "gi": "gauge", "oci": "sum", "ogi": "gauge", "ocf": "sum"}
+var isAsync = map[string]bool{"oci": true, "ogi": true, "ocf": true}
+var instruments = []string{"ci", "ci2", "cf", "ui", "hf", "gi", "oci", "ogi", "ocf"}
 
 var histBounds = []float64{0, 10, 100, 1000}
 
@@ -357,10 +370,15 @@ func runHistory(k *vf.Case) {
 	}
 	defer os.Unsetenv("OTEL_GO_X_CARDINALITY_LIMIT")
 	cfg := r.Intn(12)
+	wideAttrs = r.Bool()
 	views, specs, cfgName := viewConfig(cfg)
 	dr := sdkmetric.NewManualReader(sdkmetric.WithTemporalitySelector(func(sdkmetric.InstrumentKind) metricdata.Temporality { return metricdata.DeltaTemporality }))
 	cr := sdkmetric.NewManualReader()
-	mp := sdkmetric.NewMeterProvider(sdkmetric.WithReader(dr), sdkmetric.WithReader(cr), sdkmetric.WithView(views...))
+	ropts := []sdkmetric.Option{sdkmetric.WithReader(dr), sdkmetric.WithReader(cr)}
+	if r.Bool() {
+		ropts[0], ropts[1] = ropts[1], ropts[0] // which reader's pipeline comes first matters to what is shared between them
+	}
+	mp := sdkmetric.NewMeterProvider(append(ropts, sdkmetric.WithView(views...))...)
 	m := mp.Meter("c12")
 	var script []meas // async observations of the current cycle
 	replayI := func(inst string) metric.Int64Callback {
@@ -386,9 +404,20 @@ func runHistory(k *vf.Case) {
 	if !noAsync {
 		_, e7 = m.Int64ObservableCounter("oci", metric.WithInt64Callback(replayI("oci")))
 		_, e8 = m.Int64ObservableGauge("ogi", metric.WithInt64Callback(replayI("ogi")))
+		_, e9 := m.Float64ObservableCounter("ocf", metric.WithFloat64Callback(func(_ context.Context, o metric.Float64Observer) error {
+			for _, ms := range script {
+				if ms.inst == "ocf" {
+					o.Observe(float64(ms.v), metric.WithAttributeSet(ms.set()))
+				}
+			}
+			return nil
+		}))
+		if e9 != nil && e8 == nil {
+			e8 = e9
+		}
 	} else {
 		k.C.Count("histories_without_callbacks", 1)
-		for _, inst := range []string{"oci", "ogi"} {
+		for _, inst := range []string{"oci", "ogi", "ocf"} {
 			delete(specs, inst)
 		}
 	}
@@ -515,13 +544,16 @@ func runHistory(k *vf.Case) {
 			if inst == "ui" && r.Bool() {
 				ms.v = -ms.v
 			}
+			if r.Chance(1, 10) {
+				ms.v = 0 // a measurement of exactly zero is a measurement
+			}
 			if r.Chance(1, 40) {
 				ms.ovf = true
 			}
 			record(ms)
 			apply(ms)
 			if i%3 == 0 && !noAsync { // async observation scripted for this cycle
-				am := meas{inst: vf.Pick(r, []string{"oci", "ogi"}), a: st[0], b: st[1], v: int64(1 + r.Intn(500))}
+				am := meas{inst: vf.Pick(r, []string{"oci", "ogi", "ocf"}), a: st[0], b: st[1], v: int64(1 + r.Intn(500))}
 				script = append(script, am)
 			}
 		}
